@@ -44,7 +44,9 @@ func (dm *DMap) loadCurrentAtomicInt(e *env) (int, int64, error) {
 	}
 	nr, err := util.ParseInt(entry.Value(), 10, 64)
 	if err != nil {
-		return 0, 0, nil
+		// The stored value is not an integer (written by IncrByFloat or Put): refuse,
+		// instead of silently restarting from zero and overwriting it.
+		return 0, 0, err
 	}
 	return int(nr), entry.TTL(), nil
 }
